@@ -509,6 +509,18 @@ func ruleQueuedContinuationsUnderLock(h *H, rule string) {
 			if !ok || r.Struct == nil || ir.RelPkg(r.Struct.Obj().Pkg().Path()) != "server" {
 				return
 			}
+			// ... of the tracker's queue: the record type is the element of a slice field of the tracker
+			queued := false
+			if st, isSt := qt.Underlying().(*types.Struct); isSt {
+				for i := 0; i < st.NumFields(); i++ {
+					if sl, isSl := st.Field(i).Type().Underlying().(*types.Slice); isSl && types.Identical(types.Unalias(sl.Elem()), r.Struct) {
+						queued = true
+					}
+				}
+			}
+			if !queued {
+				return
+			}
 			n++
 			h.Fn(ir.FuncName(fn))
 			if held == nil {
